@@ -10,6 +10,17 @@
 
 package starkcurve
 
+//@ func io.ReadFull
+//@ assumed io.ReadFull (standard library): copies into buf from the reader and reports how many bytes it copied, at most len(buf), and exactly len(buf) when it returns no error
+//@ ensures 0 <= result0 && result0 <= len(buf) && (isnil(result1) ==> result0 == len(buf))
+//@ modifies buf
+//@ end
+
+//@ func (io.Writer).Write
+//@ assumed interface io.Writer: Write reports how many bytes of p it wrote, at most len(p), and returns an error when it wrote fewer; it neither keeps nor changes p
+//@ ensures 0 <= result0 && result0 <= len(p) && (isnil(result1) ==> result0 == len(p))
+//@ end
+
 //@ func Decoder.Decode
 //@ variant fr-element
 //@ dyntype v *fr.Element
@@ -17,8 +28,11 @@ package starkcurve
 //@ option opaque-calls
 //@ option nomerge
 //@ ghost failed = false
+//@ requires 0 <= dec.n && dec.n <= 4611686018427387904
+//@ ghost total = 0
 //@ cut after call ReadFull #*
 //@ + ghost failed = failed || !isnil(callresult1)
+//@ + ghost total = total + callresult0
 //@ cut after call SetBytesCanonical #*
 //@ + ghost failed = failed || !isnil(callresult)
 //@ loop 0
@@ -34,6 +48,7 @@ package starkcurve
 //@ + invariant[index] 0 <= iter && iter <= 1099511627776
 //@ + invariant[no-failure-so-far] !failed
 //@ ensures[no-hidden-error] isnil(err) ==> !failed
+//@ ensures[byte-counter] dec.n == old(dec.n) + total
 //@ modifies dec, v
 //@ end
 
@@ -44,8 +59,11 @@ package starkcurve
 //@ option opaque-calls
 //@ option nomerge
 //@ ghost failed = false
+//@ requires 0 <= dec.n && dec.n <= 4611686018427387904
+//@ ghost total = 0
 //@ cut after call ReadFull #*
 //@ + ghost failed = failed || !isnil(callresult1)
+//@ + ghost total = total + callresult0
 //@ cut after call SetBytesCanonical #*
 //@ + ghost failed = failed || !isnil(callresult)
 //@ loop 0
@@ -61,6 +79,7 @@ package starkcurve
 //@ + invariant[index] 0 <= iter && iter <= 1099511627776
 //@ + invariant[no-failure-so-far] !failed
 //@ ensures[no-hidden-error] isnil(err) ==> !failed
+//@ ensures[byte-counter] dec.n == old(dec.n) + total
 //@ modifies dec, v
 //@ end
 
@@ -129,8 +148,11 @@ package starkcurve
 //@ option opaque-calls
 //@ option nomerge
 //@ ghost failed = false
+//@ requires 0 <= dec.n && dec.n <= 4611686018427387904
+//@ ghost total = 0
 //@ cut after call ReadFull #*
 //@ + ghost failed = failed || !isnil(callresult1)
+//@ + ghost total = total + callresult0
 //@ cut after call setBytes #*
 //@ + ghost failed = failed || !isnil(callresult1)
 //@ loop 0
@@ -146,6 +168,7 @@ package starkcurve
 //@ + invariant[index] 0 <= iter && iter <= 1099511627776
 //@ + invariant[no-failure-so-far] !failed
 //@ ensures[no-hidden-error] isnil(err) ==> !failed
+//@ ensures[byte-counter] dec.n == old(dec.n) + total
 //@ modifies dec, v
 //@ end
 
@@ -157,8 +180,11 @@ package starkcurve
 //@ option nomerge
 //@ option struct-slices
 //@ ghost failed = false
+//@ requires 0 <= enc.n && enc.n <= 4611686018427387904
+//@ ghost total = 0
 //@ cut after call io.Writer.Write #*
 //@ + ghost failed = failed || !isnil(callresult1)
+//@ + ghost total = total + callresult0
 //@ loop 0
 //@ + invariant[index] 0 <= iter && iter <= 1099511627776
 //@ + invariant[no-failure-so-far] !failed
@@ -169,6 +195,7 @@ package starkcurve
 //@ + invariant[index] 0 <= iter && iter <= 1099511627776
 //@ + invariant[no-failure-so-far] !failed
 //@ ensures[no-hidden-error] isnil(err) ==> !failed
+//@ ensures[byte-counter] enc.n == old(enc.n) + total
 //@ modifies enc
 //@ end
 
@@ -180,8 +207,11 @@ package starkcurve
 //@ option nomerge
 //@ option struct-slices
 //@ ghost failed = false
+//@ requires 0 <= enc.n && enc.n <= 4611686018427387904
+//@ ghost total = 0
 //@ cut after call io.Writer.Write #*
 //@ + ghost failed = failed || !isnil(callresult1)
+//@ + ghost total = total + callresult0
 //@ loop 0
 //@ + invariant[index] 0 <= iter && iter <= 1099511627776
 //@ + invariant[no-failure-so-far] !failed
@@ -192,6 +222,7 @@ package starkcurve
 //@ + invariant[index] 0 <= iter && iter <= 1099511627776
 //@ + invariant[no-failure-so-far] !failed
 //@ ensures[no-hidden-error] isnil(err) ==> !failed
+//@ ensures[byte-counter] enc.n == old(enc.n) + total
 //@ modifies enc
 //@ end
 
@@ -253,8 +284,11 @@ package starkcurve
 //@ option nomerge
 //@ option struct-slices
 //@ ghost failed = false
+//@ requires 0 <= enc.n && enc.n <= 4611686018427387904
+//@ ghost total = 0
 //@ cut after call io.Writer.Write #*
 //@ + ghost failed = failed || !isnil(callresult1)
+//@ + ghost total = total + callresult0
 //@ cut before call io.Writer.Write #*
 //@ + invariant[bytes-of-the-point] called(Bytes) && len(callarg1) == len(resultof_Bytes) && forall(j, 0, len(resultof_Bytes), callarg1[j] == resultof_Bytes[j])
 //@ loop 0
@@ -267,6 +301,7 @@ package starkcurve
 //@ + invariant[index] 0 <= iter && iter <= 1099511627776
 //@ + invariant[no-failure-so-far] !failed
 //@ ensures[no-hidden-error] isnil(err) ==> !failed
+//@ ensures[byte-counter] enc.n == old(enc.n) + total
 //@ modifies enc
 //@ end
 
@@ -305,8 +340,11 @@ package starkcurve
 //@ option nomerge
 //@ option struct-slices
 //@ ghost failed = false
+//@ requires 0 <= enc.n && enc.n <= 4611686018427387904
+//@ ghost total = 0
 //@ cut after call io.Writer.Write #*
 //@ + ghost failed = failed || !isnil(callresult1)
+//@ + ghost total = total + callresult0
 //@ loop 0
 //@ + invariant[index] 0 <= iter && iter <= 1099511627776
 //@ + invariant[no-failure-so-far] !failed
@@ -317,6 +355,7 @@ package starkcurve
 //@ + invariant[index] 0 <= iter && iter <= 1099511627776
 //@ + invariant[no-failure-so-far] !failed
 //@ ensures[no-hidden-error] isnil(err) ==> !failed
+//@ ensures[byte-counter] enc.n == old(enc.n) + total
 //@ modifies enc
 //@ end
 
@@ -328,8 +367,11 @@ package starkcurve
 //@ option nomerge
 //@ option struct-slices
 //@ ghost failed = false
+//@ requires 0 <= enc.n && enc.n <= 4611686018427387904
+//@ ghost total = 0
 //@ cut after call io.Writer.Write #*
 //@ + ghost failed = failed || !isnil(callresult1)
+//@ + ghost total = total + callresult0
 //@ loop 0
 //@ + invariant[index] 0 <= iter && iter <= 1099511627776
 //@ + invariant[no-failure-so-far] !failed
@@ -340,6 +382,7 @@ package starkcurve
 //@ + invariant[index] 0 <= iter && iter <= 1099511627776
 //@ + invariant[no-failure-so-far] !failed
 //@ ensures[no-hidden-error] isnil(err) ==> !failed
+//@ ensures[byte-counter] enc.n == old(enc.n) + total
 //@ modifies enc
 //@ end
 
@@ -401,8 +444,11 @@ package starkcurve
 //@ option nomerge
 //@ option struct-slices
 //@ ghost failed = false
+//@ requires 0 <= enc.n && enc.n <= 4611686018427387904
+//@ ghost total = 0
 //@ cut after call io.Writer.Write #*
 //@ + ghost failed = failed || !isnil(callresult1)
+//@ + ghost total = total + callresult0
 //@ cut before call io.Writer.Write #*
 //@ + invariant[bytes-of-the-point] called(RawBytes) && len(callarg1) == len(resultof_RawBytes) && forall(j, 0, len(resultof_RawBytes), callarg1[j] == resultof_RawBytes[j])
 //@ loop 0
@@ -415,6 +461,7 @@ package starkcurve
 //@ + invariant[index] 0 <= iter && iter <= 1099511627776
 //@ + invariant[no-failure-so-far] !failed
 //@ ensures[no-hidden-error] isnil(err) ==> !failed
+//@ ensures[byte-counter] enc.n == old(enc.n) + total
 //@ modifies enc
 //@ end
 
